@@ -213,6 +213,63 @@ fn check_last(w: i32, h: i32, hist: &[Op]) -> Result<u64, Violation> {
     Ok(hash64(&(state_key(&after, cursor), expect_xf)))
 }
 
+/// "A DrawTarget can be reused indefinitely": repeating a call (a push together with its pop) on
+/// one target must not make the heap grow. The allocator counts the live bytes of this thread.
+/// Ok(growth in bytes) or the violation.
+fn growth_case(w: i32, h: i32, xf: &Xf, op: &Op) -> Result<isize, Violation> {
+    let case = format!("growth | {}", Scene { w, h, dst: Dst::Zero, ops: vec![Op::SetTransform(*xf), op.clone()] });
+    let r = guard(|| {
+        let mut dt = DrawTarget::new(w, h);
+        dt.set_transform(&xf_to(xf));
+        let once = |dt: &mut DrawTarget| {
+            exec(dt, op);
+            match op {
+                Op::PushClip(_) | Op::PushClipRect(..) => exec(dt, &Op::PopClip),
+                Op::PushLayer(..) => exec(dt, &Op::PopLayer),
+                _ => {}
+            }
+        };
+        for _ in 0..64 {
+            once(&mut dt);
+        }
+        let a = crate::live_bytes();
+        for _ in 0..256 {
+            once(&mut dt);
+        }
+        let b = crate::live_bytes();
+        drop(dt);
+        b - a
+    });
+    match r {
+        Ok(g) if g <= 4096 => Ok(g),
+        Ok(g) => Err(Violation::new(format!("{}/reused-target-grows", op.kind()), case, format!("256 repetitions of the call on one target left {} more live heap bytes than before them (after 64 warm-up repetitions): something accumulates", g))),
+        Err(p) => Err(Violation::new(format!("{}/panic", op.kind()), case, p)),
+    }
+}
+
+fn no_growth(run: &Run, w: i32, h: i32) {
+    let alpha = alphabet(w, h);
+    run.bound("no growth under repetition", format!("each of the {} alphabet calls (pushes with their pop) x 3 transforms: 64 warm-up repetitions, then 256 more on the same target; live heap bytes of the thread must not grow by more than 4 KiB", alpha.len()));
+    let xfs: [Xf; 3] = [IDENT, [1., 0., 0., 1., 0.5, 0.25], [1., 0., 0., 0., 0., 0.]];
+    run.par(alpha.len() * xfs.len(), |s, l| {
+        let op = &alpha[s / xfs.len()];
+        if matches!(op, Op::PopClip | Op::PopLayer | Op::SetTransform(_)) {
+            return;
+        }
+        l.states += 1;
+        l.transitions += 320;
+        l.traces += 1;
+        l.evals += 1;
+        match growth_case(w, h, &xfs[s % xfs.len()], op) {
+            Ok(g) => {
+                l.outcome(hash64(&(s, g.max(0) / 4096)));
+                l.nontrivial += 1;
+            }
+            Err(v) => run.report(900_000 + s, v),
+        }
+    });
+}
+
 fn explore(run: &Run, w: i32, h: i32, unmerged_depth: usize, merged_depth: usize) {
     let alpha = alphabet(w, h);
     let na = alpha.len();
@@ -350,6 +407,7 @@ impl Check for C10 {
         let q = run.tier.quick();
         run.rule("histories over a 30-call alphabet (fills of very different vertical extents, off-surface and degenerate paths, paths without MoveTo / without Close, curves, clip pushes of on/off-surface paths, clip rect, pops, zero-width and dashed strokes, singular / identity / fractional transforms, clear, fast-path fill_rect, layers) are explored exhaustively; every transition is compared with the same call on a fresh target holding the same visible state; non-trivial = history contains at least two drawing calls");
         run.assume("merging: two histories with equal (all buffers, transform, clip stack, layer stack, rasteriser idle flag, hidden path cursor) differ at most in the rasteriser's arena address and cur_y, both re-initialised before use; keys are 64-bit hashes");
+        no_growth(run, 4, 4);
         if q {
             explore(run, 4, 4, 3, 4);
         } else {
@@ -359,6 +417,13 @@ impl Check for C10 {
     }
 
     fn replay(&self, case: &str) -> Result<Option<Violation>, String> {
+        if let Some(rest) = case.strip_prefix("growth | ") {
+            let s = parse_scene(rest)?;
+            return match (s.ops.first(), s.ops.get(1)) {
+                (Some(Op::SetTransform(xf)), Some(op)) => Ok(growth_case(s.w, s.h, xf, op).err()),
+                _ => Err("growth case needs set_transform + one call".into()),
+            };
+        }
         let s = parse_scene(case)?;
         if s.ops.is_empty() {
             return Ok(None);
